@@ -577,6 +577,11 @@ Definition step (legacy : bool) (st : state) (c : cop) : res (state * list obs) 
     do lkv <- get_map st m;
     do y <- binop_apply op (opt_val (mget (snd lkv) k)) x;
     Ok (upd_map st (fst lkv) (minsert (snd lkv) k y), [])
+  (* replace / remove hand back the previous value as a [val]: the bare value when there was one, VNil when
+     there was none ([opt_val]) -- like every other optional at run time.  (Before
+     fixes/c13-map-replace-remove-bare-optional.diff the implementation wrapped a present value once more,
+     Optional(Some(v)): it printed like v but [v] == [result] was false; [val] has no such wrapper, the check
+     vlib/c13.py uses the result again to tell the two apart.) *)
   | Replace m k x =>
     do lkv <- get_map st m; do y <- eval_operand st x;
     do o <- render st (opt_val (mget (snd lkv) k));
